@@ -117,6 +117,12 @@ func (tx *Tx) getTxID() (id uint64, err error) {
 		return 0, err
 	}
 
+	// ids come from one generator per database: a generator created for each transaction starts
+	// at sequence 0, so transactions begun within the same millisecond received the same id
+	if tx.db.txIDNode != nil {
+		node = tx.db.txIDNode
+	}
+
 	id = uint64(node.Generate().Int64())
 
 	return
